@@ -250,6 +250,13 @@ let handle (req : sexp) : sexp =
     (* the proved rounding bound of the one-pass variance (Proofs/VarFloat.v), evaluated exactly *)
     let q s = this (qc_of_string (atom s)) in
     A (string_of_qc (q2Qc (var_bound (q u) (q n) (q kn) (q kd) (q m) (nat_of h1) (nat_of h2))))
+  | L [A "add_row_margin"; n; levels; rows] ->
+    (* core.add_row_margin with agg = integer addition: rows [[k1 .. kn] v]; 'All' is written A *)
+    let d = List.map (fun r -> match lst r with
+        | [k; v] -> (List.map (fun x -> Some (z_of_string (atom x))) (lst k), z_of_string (atom v))
+        | _ -> failwith "row") (lst rows) in
+    let out = add_row_margin Z.add (nat_of_int (int_of_string (atom n))) (List.map (fun x -> nat_of_int (int_of_string (atom x))) (lst levels)) d in
+    L (List.map (fun (k, v) -> L [L (List.map (function Some z -> A (string_of_z z) | None -> A "A") k); A (string_of_z v)]) out)
   | L [A "mean_ticks"; groups] ->
     (* util.mean_from_sum_count on tick counts: 64-bit wrapping sum // count per group, "N" for an empty group *)
     L (List.map (fun g -> match group_mean_ticks (zlist g) with Some m -> A (string_of_z m) | None -> A "N") (lst groups))
